@@ -228,7 +228,7 @@ def run(rep, tier, seed):
     # code -> spec: long accepted sequences minus one child
     rnd = random.Random(seed)
     cases = []
-    per = 12 if tier == "quick" else 150
+    per = 12 if tier == "quick" else 100
     applies = {u["unit"] for u in U if u["applies"]}
     for unit, d in sorted(dfas.items()):
         if unit not in applies:
@@ -241,7 +241,7 @@ def run(rep, tier, seed):
         n_long = G.get("n_long", 0)
         if len(sig) <= 8:
             G["n_long"] = n_long + 1
-            reps = (257, 300) if (tier == "thorough" and len(sig) <= 3) else (50, 52)
+            reps = (257, 280) if (tier == "thorough" and len(sig) <= 3) else (50, 52)
             walks += [w for w in c01.pumped_words(d2, rnd, count=1, reps=reps) if w and c01.FOREIGN not in w and d.out[d.run(w)] == "ACCEPT"][:1]
         for v in walks[:per + 1]:
             # short walks: one random child removed; long ones: the first, the last and a random child removed, and every
@@ -258,7 +258,7 @@ def run(rep, tier, seed):
                 if kind == "refused":
                     continue
                 cases.append({"unit": unit, "w": w, "c": c, "obs": got})
-    rejects, rt = judge_traces(cases, PID, module="TraceInsert", cfg="TraceInsert.cfg", label="long", lib=wd)
+    rejects, rt = judge_traces(cases, PID, module="TraceInsert", cfg="TraceInsert.cfg", label="long", lib=wd, timeout=5400)
     rep.cov["traces_validated_against_impl"] += len(cases)
     for rj in rejects:
         e = cases[rj["case"] - 1]
